@@ -193,14 +193,23 @@ type SCTPParameter struct {
 	Value        []byte
 }
 
-func decodeSCTPParameter(data []byte) SCTPParameter {
+func decodeSCTPParameter(data []byte) (SCTPParameter, error) {
+	if len(data) < 4 {
+		return SCTPParameter{}, errors.New("invalid SCTP parameter length")
+	}
 	length := binary.BigEndian.Uint16(data[2:4])
+	if length < 4 {
+		return SCTPParameter{}, errors.New("invalid SCTP parameter length")
+	}
+	if len(data) < int(length) {
+		return SCTPParameter{}, errors.New("SCTP parameter length exceeds remaining chunk length")
+	}
 	return SCTPParameter{
 		Type:         binary.BigEndian.Uint16(data[0:2]),
 		Length:       length,
 		Value:        data[4:length],
 		ActualLength: roundUpToNearest4(int(length)),
-	}
+	}, nil
 }
 
 func (p SCTPParameter) Bytes() []byte {
@@ -428,6 +437,9 @@ func decodeSCTPInit(data []byte, p gopacket.PacketBuilder) error {
 	if err != nil {
 		return err
 	}
+	if chunk.Length < 20 {
+		return errors.New("invalid SCTP init chunk length")
+	}
 	sc := &SCTPInit{
 		SCTPChunk:                      chunk,
 		InitiateTag:                    binary.BigEndian.Uint32(data[4:8]),
@@ -438,8 +450,13 @@ func decodeSCTPInit(data []byte, p gopacket.PacketBuilder) error {
 	}
 	paramData := data[20:sc.ActualLength]
 	for len(paramData) > 0 {
-		p := SCTPInitParameter(decodeSCTPParameter(paramData))
-		paramData = paramData[p.ActualLength:]
+		param, err := decodeSCTPParameter(paramData)
+		if err != nil {
+			return err
+		}
+		p := SCTPInitParameter(param)
+		// The padding of the last parameter may be missing.
+		paramData = paramData[min(p.ActualLength, len(paramData)):]
 		sc.Parameters = append(sc.Parameters, p)
 	}
 	p.AddLayer(sc)
@@ -489,6 +506,9 @@ func decodeSCTPSack(data []byte, p gopacket.PacketBuilder) error {
 	if err != nil {
 		return err
 	}
+	if chunk.Length < 16 {
+		return errors.New("invalid SCTP sack chunk length")
+	}
 	sc := &SCTPSack{
 		SCTPChunk:                      chunk,
 		CumulativeTSNAck:               binary.BigEndian.Uint32(data[4:8]),
@@ -509,6 +529,9 @@ func decodeSCTPSack(data []byte, p gopacket.PacketBuilder) error {
 	}
 	if dupTSNs > int(sc.NumDuplicateTSNs) {
 		dupTSNs = int(sc.NumDuplicateTSNs)
+	}
+	if 16+2*int(sc.NumGapACKs)+4*int(sc.NumDuplicateTSNs) > int(sc.Length) {
+		return errors.New("SCTP sack gap acks and duplicate TSNs exceed chunk length")
 	}
 	sc.GapACKs = make([]uint16, 0, gapAcks)
 	sc.DuplicateTSNs = make([]uint32, 0, dupTSNs)
@@ -578,8 +601,13 @@ func decodeSCTPHeartbeat(data []byte, p gopacket.PacketBuilder) error {
 	}
 	paramData := data[4:sc.Length]
 	for len(paramData) > 0 {
-		p := SCTPHeartbeatParameter(decodeSCTPParameter(paramData))
-		paramData = paramData[p.ActualLength:]
+		param, err := decodeSCTPParameter(paramData)
+		if err != nil {
+			return err
+		}
+		p := SCTPHeartbeatParameter(param)
+		// The padding of the last parameter may be missing.
+		paramData = paramData[min(p.ActualLength, len(paramData)):]
 		sc.Parameters = append(sc.Parameters, p)
 	}
 	p.AddLayer(sc)
@@ -634,8 +662,13 @@ func decodeSCTPError(data []byte, p gopacket.PacketBuilder) error {
 	}
 	paramData := data[4:sc.Length]
 	for len(paramData) > 0 {
-		p := SCTPErrorParameter(decodeSCTPParameter(paramData))
-		paramData = paramData[p.ActualLength:]
+		param, err := decodeSCTPParameter(paramData)
+		if err != nil {
+			return err
+		}
+		p := SCTPErrorParameter(param)
+		// The padding of the last parameter may be missing.
+		paramData = paramData[min(p.ActualLength, len(paramData)):]
 		sc.Parameters = append(sc.Parameters, p)
 	}
 	p.AddLayer(sc)
@@ -674,6 +707,9 @@ func decodeSCTPShutdown(data []byte, p gopacket.PacketBuilder) error {
 	chunk, err := decodeSCTPChunk(data)
 	if err != nil {
 		return err
+	}
+	if chunk.Length < 8 {
+		return errors.New("invalid SCTP shutdown chunk length")
 	}
 	sc := &SCTPShutdown{
 		SCTPChunk:        chunk,
